@@ -8,7 +8,7 @@ SRC=/tmp/seed_$P/SEED_OUT
 OUT=/verif/seeded/$P-$L
 WT=/tmp/confirm_${P}_$L
 [ -f $SRC/$L.diff ] || { echo "no $SRC/$L.diff"; exit 3; }
-rm -rf $WT; git -C /repo worktree prune; git -C /repo worktree add --detach $WT HEAD >/dev/null 2>&1 || exit 3
+rm -rf $WT; git -C /repo worktree prune; git -C /repo worktree add --detach $WT 9dc07ba >/dev/null 2>&1 || exit 3
 cd $WT
 DEMO=asimap/test/test_seed_${P}_$L.py
 cp $SRC/demo_$L.py $DEMO
